@@ -151,7 +151,7 @@ func (a *T0x0200AdditionDetails) parse(body []byte) error {
 			return additionLen == 6
 		case 0x13:
 			return additionLen == 7
-		case 0x30:
+		case 0x30, 0x31:
 			return additionLen == 1
 		}
 		return true
